@@ -25,7 +25,7 @@ func b01(b bool) string {
 }
 
 // tag keys whose Tag.Get result is shipped to the model
-var tagKeys = []string{"bexpr", "json", "pointer", "alt"}
+var tagKeys = []string{"bexpr", "json", "pointer", "alt", "étiq"}
 
 func typeName(t reflect.Type) string {
 	if t.Name() == "" {
